@@ -57,6 +57,8 @@ pub struct Sys {
     fired: Option<u8>,
     polled_after: bool,
     prop: &'static str,
+    /// chain mode (script system): timers get distinct deadlines 1, 2, 3, ...
+    chain: bool,
 }
 
 const WAKER: usize = 1;
@@ -153,7 +155,7 @@ impl Sys {
             }
             Prim::Timer(t) => {
                 let t: &'static GenericTimerService<PL> = stat!(t, GenericTimerService<PL>);
-                let f = Timer::deadline(t, 1);
+                let f = Timer::deadline(t, if self.chain { 1 + self.futs.len() as u64 } else { 1 });
                 Box::pin(async move {
                     f.await;
                     R_UNIT
@@ -212,10 +214,12 @@ impl System for Sys {
             }
             _ => panic!("unknown burst kind"),
         };
+        // single sends / receives that serve parked futures are C10's business, close() is C11's
+        let prop = if cfg.flag("chain") && (kind == 2 || kind == 3) { "C10" } else { prop };
         let n_max = cfg.get_or("n", 40) as usize;
         let mut futs = Vec::with_capacity(n_max + 1);
         futs.clear();
-        Sys { futs, prim, kind, n_max, fired: None, polled_after: false, prop }
+        Sys { futs, prim, kind, n_max, fired: None, polled_after: false, prop, chain: cfg.flag("chain") }
     }
 
     fn enabled(&self) -> Vec<Op> {
@@ -370,6 +374,180 @@ impl System for Sys {
 
     fn fingerprint(&self) -> Vec<u8> {
         vec![self.futs.len() as u8, self.fired.map_or(255, |v| v), self.polled_after as u8]
+    }
+
+    fn finish(self, _out: &mut StepOut) {}
+}
+
+
+// ---------------------------------------------------------------------------------------------
+// Scripted bursts around the ends of the small integer ranges: N in {1, 2, 3, 255, 256, 257,
+// 65535, 65536, 65537, 65538}. Replaying `Register^N` from scratch for every N (what the BFS does
+// with the system above) is quadratic, so here one operation `Run(i)` performs the whole script
+// on a fresh primitive:
+//   mass mode  : Register^N ; Fire(v) ; PollAll                       (all kinds, every variant)
+//   chain mode : Register^N ; then N single steps, each of which has to wake somebody and let
+//                the oldest parked future complete (mutex unlock chain, release(1), try_send,
+//                try_receive from parked senders, one timer deadline per clock tick)
+// A counter narrower than usize that the implementation keeps next to its queue (a seeded change
+// used a saturating u16 "number of waiters") is exact below its range and wrong above it.
+
+pub const SCRIPT_SIZES: [usize; 10] = [1, 2, 3, 255, 256, 257, 65535, 65536, 65537, 65538];
+
+#[derive(Clone, Copy, Debug, PartialEq)]
+pub enum ScriptOp {
+    Run(u8),
+}
+
+pub struct Script {
+    cfg: Cfg,
+    ran: Option<u8>,
+    max_idx: usize,
+}
+
+impl Script {
+    fn take(inner: StepOut, out: &mut StepOut) -> bool {
+        let bad = !inner.viol.is_empty() || inner.corrupt;
+        out.viol.extend(inner.viol);
+        out.corrupt |= inner.corrupt;
+        bad
+    }
+
+    fn chain(sys: &mut Sys, out: &mut StepOut) {
+        let waker = harness::waker(WAKER);
+        let n = sys.futs.len();
+        // the mutex is held by a guard: the first step is its release
+        if let Prim::Mutex(_, g) = &mut sys.prim {
+            let w0 = harness::wakes(WAKER);
+            let g = g.take();
+            if let Err(p) = lib(|| drop(g)) {
+                out.v("C01", "panic", format!("dropping the guard panicked: {}", p));
+                return;
+            }
+            if harness::wakes(WAKER) == w0 {
+                out.v(sys.prop, "chain-no-wake", format!("{} lock futures are parked; dropping the guard woke none of them", n));
+                return;
+            }
+        }
+        for i in 0..n {
+            let w0 = harness::wakes(WAKER);
+            let step: Result<Result<(), String>, String> = match &sys.prim {
+                Prim::Sem(s) => lib(|| {
+                    s.release(1);
+                    Ok(())
+                }),
+                Prim::MpmcRecv(c) => lib(|| c.try_send(Tag(1)).map_err(|_| "try_send failed although the buffer is empty".to_string())),
+                Prim::MpmcSend(c) => lib(|| c.try_receive().map(|_| ()).map_err(|_| "try_receive failed although a sender is parked".to_string())),
+                Prim::Timer(t) => {
+                    clock().set_time(1 + i as u64);
+                    lib(|| {
+                        t.check_expirations();
+                        Ok(())
+                    })
+                }
+                Prim::Mutex(_, _) => Ok(Ok(())),
+                _ => unreachable!("no chain mode for this kind"),
+            };
+            match step {
+                Err(p) => {
+                    out.v("C01", "panic", format!("step {} of {} panicked: {}", i + 1, n, p));
+                    out.corrupt = true;
+                    return;
+                }
+                Ok(Err(m)) => {
+                    out.v(sys.prop, "chain-step-failed", format!("step {} of {}: {}", i + 1, n, m));
+                    return;
+                }
+                Ok(Ok(())) => {}
+            }
+            sys.allocs("a single wake-up step", out);
+            if !matches!(sys.prim, Prim::Mutex(_, _)) && harness::wakes(WAKER) == w0 {
+                out.v(sys.prop, "chain-no-wake", format!("step {} of {}: {} futures are still parked, the operation that serves the oldest of them woke nobody", i + 1, n, n - i));
+                return;
+            }
+            let w1 = harness::wakes(WAKER);
+            let f = sys.futs[i].as_mut().unwrap();
+            match lib(|| f.as_mut().poll(&mut Context::from_waker(&waker))) {
+                Err(p) => {
+                    out.v("C01", "panic", format!("poll of future {} panicked: {}", i, p));
+                    out.corrupt = true;
+                    return;
+                }
+                Ok(Poll::Pending) => {
+                    out.v(sys.prop, "chain-still-pending", format!("step {} of {}: the oldest parked future (number {}) is still pending after the operation that serves it", i + 1, n, i));
+                    return;
+                }
+                Ok(Poll::Ready(_)) => {}
+            }
+            sys.allocs("the poll that completes a future", out);
+            // the mutex future unlocks when it completes: that unlock has to wake the next one
+            if matches!(sys.prim, Prim::Mutex(_, _)) && i + 1 < n && harness::wakes(WAKER) == w1 {
+                out.v(sys.prop, "chain-no-wake", format!("unlock number {} did not wake any of the {} lock futures that are still parked", i + 2, n - i - 1));
+                return;
+            }
+            if !out.viol.is_empty() {
+                return;
+            }
+        }
+        let futs: Vec<Option<DynFut>> = std::mem::take(&mut sys.futs);
+        harness::take_alloc_counts();
+        drop(futs);
+    }
+}
+
+impl System for Script {
+    type Op = ScriptOp;
+
+    fn new(cfg: &Cfg) -> Self {
+        Script { cfg: cfg.clone(), ran: None, max_idx: cfg.get_or("sizes", SCRIPT_SIZES.len() as i64) as usize }
+    }
+
+    fn enabled(&self) -> Vec<ScriptOp> {
+        if self.ran.is_some() {
+            return vec![];
+        }
+        (0..self.max_idx.min(SCRIPT_SIZES.len())).map(|i| ScriptOp::Run(i as u8)).collect()
+    }
+
+    fn apply(&mut self, op: ScriptOp, out: &mut StepOut) {
+        let ScriptOp::Run(idx) = op;
+        self.ran = Some(idx);
+        let n = SCRIPT_SIZES[idx as usize];
+        let chain = self.cfg.flag("chain");
+        let inner_cfg = self.cfg.with("n", n as i64);
+        let variants = if chain { 1 } else { Sys::new(&inner_cfg).variants() };
+        for v in 0..variants {
+            let mut sys = Sys::new(&inner_cfg);
+            for _ in 0..n {
+                let mut o = StepOut::default();
+                sys.apply(Op::Register, &mut o);
+                if Self::take(o, out) {
+                    std::mem::forget(sys);
+                    return;
+                }
+            }
+            if chain {
+                Self::chain(&mut sys, out);
+            } else {
+                for op in [Op::Fire(v), Op::PollAll] {
+                    let mut o = StepOut::default();
+                    sys.apply(op, &mut o);
+                    if Self::take(o, out) {
+                        break;
+                    }
+                }
+            }
+            if !out.viol.is_empty() {
+                // a primitive that misbehaved is not torn down
+                std::mem::forget(sys);
+                return;
+            }
+        }
+        out.o(&format!("n={} ok", n));
+    }
+
+    fn fingerprint(&self) -> Vec<u8> {
+        vec![self.ran.map_or(255, |v| v)]
     }
 
     fn finish(self, _out: &mut StepOut) {}
